@@ -117,43 +117,97 @@ def simReads (cp : Comp (List Nat)) (fs : Nat) (ps : List Nat) : Nat → Nat →
       let q := simReads cp fs ps k (i + 1) r.2
       (rec_ :: q.1, q.2)
 
+/-- the filter part shared by `f` and `r` ops: model string, verdict, tags -/
+def filterPart (fs : Nat) (chunks ps : List Nat) (mx : Nat) (ikv : List (String × String)) :
+    Option (String × String × List String) :=
+  match (look ikv "r").bind (fun s => if s == "-" then some [] else (s.splitOn ",").mapM parseRec), lookNat ikv "eof", look ikv "dec" with
+  | some recs, some ieof, some idec =>
+    let src : List Bytes := chunks.map fun n => List.replicate n 0
+    let st0 : FSt := { src := src }
+    let k := recs.length
+    -- emission per Read, from the implementation's numbers
+    let es := (recs.zip (0 :: recs.map (·.buf))).map fun (r, prev) => r.n + r.buf - prev
+    let has := opReads fs k st0
+    let q := ((es.zip has).filter (·.2)).map (·.1)
+    let stray := (es.zip has).any fun x => !x.2 && x.1 != 0
+    let cp : Comp (List Nat) := { lenComp with init := q }
+    let sim := simReads cp fs ps k 0 st0
+    let m := "r=" ++ (if sim.1.isEmpty then "-" else ",".intercalate (sim.1.map showRec)) ++ ";eof=" ++
+      (if sim.2 then "1" else "0") ++ ";dec=" ++ (if sim.2 then "ok" else "na")
+    let m := if stray then "emission-without-compressor-call" else m
+    let verdict :=
+      if ieof == 1 then (if idec == "ok" then "ok" else "FAIL:corrupt-body-" ++ idec)
+      else if k < mx then "FAIL:reader-stopped-" ++ idec else "ok"
+    let nflush := (has.filter id).length
+    let tags := (if sim.2 && nflush ≥ 3 then ["nt", "f-multiflush"] else []) ++
+      (if sim.2 then ["f-eof"] else ["f-partial"]) ++
+      (if chunks.any (· == 0) then ["f-emptychunk"] else []) ++
+      (if chunks.foldl (· + ·) 0 == 0 then ["f-emptybody"] else []) ++
+      (if chunks.any (· > fs) then ["f-chunk>fs"] else []) ++
+      (if ps.any (· == 1) then ["f-p1"] else [])
+    some (m, verdict, tags)
+  | _, _, _ => none
+
 def runF (rest impl : String) : Ans :=
   let kv := parseKV rest
   match lookNat kv "fs", (look kv "chunks").bind (natList ","), (look kv "reads").bind (natList ","), lookNat kv "max" with
   | some fs, some chunks, some ps, some mx =>
-    let ikv := parseKV impl
-    match (look ikv "r").bind (fun s => if s == "-" then some [] else (s.splitOn ",").mapM parseRec), lookNat ikv "eof", look ikv "dec" with
-    | some recs, some ieof, some idec =>
-      let src : List Bytes := chunks.map fun n => List.replicate n 0
-      let st0 : FSt := { src := src }
-      let k := recs.length
-      -- emission per Read, from the implementation's numbers
-      let es := (recs.zip (0 :: recs.map (·.buf))).map fun (r, prev) => r.n + r.buf - prev
-      let has := opReads fs k st0
-      let q := ((es.zip has).filter (·.2)).map (·.1)
-      let stray := (es.zip has).any fun x => !x.2 && x.1 != 0
-      let cp : Comp (List Nat) := { lenComp with init := q }
-      let sim := simReads cp fs ps k 0 st0
-      let m := "r=" ++ (if sim.1.isEmpty then "-" else ",".intercalate (sim.1.map showRec)) ++ ";eof=" ++
-        (if sim.2 then "1" else "0") ++ ";dec=" ++ (if sim.2 then "ok" else "na")
-      let m := if stray then "emission-without-compressor-call" else m
-      let verdict :=
-        if ieof == 1 then (if idec == "ok" then "ok" else "FAIL:corrupt-body-" ++ idec)
-        else if k < mx then "FAIL:reader-stopped-" ++ idec else "ok"
-      let nflush := (has.filter id).length
-      let tags := ["f"] ++ (if sim.2 && nflush ≥ 3 then ["nt", "f-multiflush"] else []) ++
-        (if sim.2 then ["f-eof"] else ["f-partial"]) ++
-        (if chunks.any (· == 0) then ["f-emptychunk"] else []) ++
-        (if chunks.foldl (· + ·) 0 == 0 then ["f-emptybody"] else []) ++
-        (if chunks.any (· > fs) then ["f-chunk>fs"] else []) ++
-        (if ps.any (· == 1) then ["f-p1"] else [])
-      { model := m, verdict := verdict, tags := tags }
-    | _, _, _ => { model := "unparsable-impl", verdict := "ok" }
+    match filterPart fs chunks ps mx (parseKV impl) with
+    | some (m, v, tags) => { model := m, verdict := v, tags := ["f"] ++ tags }
+    | none => { model := "unparsable-impl", verdict := "ok" }
   | _, _, _, _ => { model := "bad-op", verdict := "skip" }
+
+def optInt (s : String) : Option (Option Int) :=
+  if s == "m" then some none else (s.toInt?).map some
+
+/-- `r cmd=<G|B|X|m>;q=<int|m>;fs=<int|m>;ae=<hex>;chunks=..;kind=..;seed=..;reads=..;eofw=..;max=..`:
+    a product rule FILE is written and loaded by the real ProductRuleConfLoad, then one response goes
+    through compressHandler and the installed filter.
+    → `load=<ok|err|panic>;enc=<none|gzip|br>;raw=<ok|bad|na>` [`;r=..;eof=..;dec=..` when a filter was installed] -/
+def runR (rest impl : String) : Ans :=
+  let kv := parseKV rest
+  match look kv "cmd", (look kv "q").bind optInt, (look kv "fs").bind optInt, (look kv "ae").bind bytesOfHex,
+        (look kv "chunks").bind (natList ","), (look kv "reads").bind (natList ","), lookNat kv "max" with
+  | some cmds, some q, some fs, some ae, some chunks, some ps, some mx =>
+    let cmd : Option Cmd := if cmds == "G" then some .gzip else if cmds == "B" then some .brotli
+      else if cmds == "m" then none else some .other
+    let ld := actionFileCheck cmd q fs
+    let lds := match ld with | .ok => "ok" | .err => "err" | .panic => "panic"
+    let ikv := parseKV impl
+    let ild := (look ikv "load").getD "?"
+    let ienc := (look ikv "enc").getD "?"
+    let iraw := (look ikv "raw").getD "?"
+    -- oracle (on the implementation's answer only)
+    let bodyVerdict : String :=
+      if ienc == "none" then (if iraw == "ok" || (ild != "ok" && iraw == "na") then "ok" else "FAIL:passthrough-body-changed")
+      else if ienc == "gzip" || ienc == "br" then
+        match lookNat ikv "eof", look ikv "dec" with
+        | some 1, some d => if d == "ok" then "ok" else "FAIL:rulefile-corrupt-body-" ++ d
+        | some _, some d => if (((look ikv "r").getD "").splitOn ",").length < mx then "FAIL:reader-stopped-" ++ d else "ok"
+        | _, _ => "FAIL:unparsable"
+      else "FAIL:unparsable"
+    let btags := ["r", "load-" ++ lds] ++
+      (match fs with | some f => (if f == 0 then ["fs0"] else if f < 64 then ["fs<64"] else if f > 4096 then ["fs>4096"]
+                                  else if f == 64 || f == 4096 then ["fs-edge"] else []) | none => ["fs-missing"])
+    match ld with
+    | .ok =>
+      let o := handler { ae := ae, ce := [], hasCL := true, rules := some [{ hit := true, cmd := cmd.getD .other }] }
+      match o.enc with
+      | none => { model := "load=ok;enc=none;raw=ok", verdict := bodyVerdict, tags := btags ++ ["r-none"] }
+      | some e =>
+        let f := (match fs with | some f => f.toNat | none => 0)
+        match filterPart f chunks ps mx ikv with
+        | some (m, _, tags) =>
+          { model := "load=ok;enc=" ++ encName (some e) ++ ";raw=na;" ++ m, verdict := bodyVerdict,
+            tags := btags ++ ["r-enc"] ++ tags }
+        | none => { model := "load=ok;enc=" ++ encName (some e) ++ ";raw=na;<no filter record>", verdict := bodyVerdict, tags := btags }
+    | _ => { model := "load=" ++ lds ++ ";enc=none;raw=na", verdict := bodyVerdict, tags := btags }
+  | _, _, _, _, _, _, _ => { model := "bad-op", verdict := "skip" }
 
 def run (op impl : String) : Ans :=
   if op.startsWith "h " then runH (op.drop 2).toString impl
   else if op.startsWith "f " then runF (op.drop 2).toString impl
+  else if op.startsWith "r " then runR (op.drop 2).toString impl
   else { model := "bad-op", verdict := "skip" }
 
 end BfeVerif.C54
